@@ -72,6 +72,9 @@ fn model<T: Sc>(cfg: &Cfg) -> BM<T> {
             let big = if cfg.f32_ { 1e20 } else { 1e155 };
             PolySpec { n: 4, m: 2, p: 1, a0: vec![0.0; 8], a: vec![vec![big, 0.5 * big, big, -0.25 * big, 0.5 * big, big, -big, 0.75 * big]], b: vec![vec![0.0; 8]] }
         }
+        // square AND rank deficient at every parameter (2 x 2, all entries alpha): as many samples as basis functions, yet the
+        // observations are not reproduced - the residuals of the initial state are far from zero (wave w)
+        2 => PolySpec { n: 2, m: 2, p: 1, a0: vec![0.0; 4], a: vec![vec![1.0; 4]], b: vec![vec![0.0; 4]] },
         // dense, well conditioned 5 x 3 basis (three columns: the decomposition really iterates)
         5 => PolySpec { n: 5, m: 3, p: 1, a0: vec![0.0; 15], a: vec![DENSE.to_vec()], b: vec![vec![0.0; 15]] },
         _ => PolySpec { n, m: 1, p: 1, a0: vec![0.0; n], a: vec![vec![1.0; n]], b: vec![vec![0.0; n]] },
@@ -549,7 +552,7 @@ fn main() {
         let mut tally = (0u64, 0u64, 0u64);
         for mrhs in [false, true] {
             for par in [false, true] {
-                for out_len in [3usize, 1, 0, 300, 5, 4] {
+                for out_len in [3usize, 1, 0, 300, 5, 4, 2] {
                     for tiny_d2 in [false, true] {
                         if tiny_d2 && out_len != 3 {
                             continue;
